@@ -148,7 +148,7 @@ def main(argv):
             if len(seen_inv) > 3:
                 break
             case, evals = core.shrink(mod, r["case"], v["invariant"], budget_s=float(os.environ.get("VERIF_SHRINK_S", 60)))
-            res = core.run_one(mod, case)
+            res = core.run_isolated(mod, case)
             vv = next((x for x in res["violations"] if x["invariant"] == v["invariant"]), v)
             rdir = os.environ.get("VERIF_REPLAY_DIR") or os.path.join(HERE, "replays")
             os.makedirs(rdir, exist_ok=True)
